@@ -1,6 +1,8 @@
 package interpreter
 
 import (
+	"encoding/json"
+
 	"github.com/krotik/ecal/parser"
 	"github.com/krotik/ecal/scope"
 	"github.com/krotik/ecal/util"
@@ -14,8 +16,12 @@ var c16Lbl = []string{"0", "1", "2", "3", "4", "5"}
 const c16ProgTop = "a := 1\nb := 2\nc := 3"
 const c16ProgCall = "func f(x) {\n  y := x\n  return y\n}\nr := f(1)\nq := 2"
 
+// values a variable of the suspended program may hold (VALUES=1): every kind of the ECAL value universe incl. the
+// non-finite numbers, nested containers, a map with a number key and a function
+var c16Values = []string{"1", "1 / 0", "0 - 1 / 0", "0 / 0", "\"s\"", "[1, [2, null]]", "{\"k\" : [1]}", "{1 : 2}", "null", "len", "true"}
+
 // c16State builds one of the debugger states: 0 fresh, 1 finished run, 2 thread suspended at top level,
-// 3 thread suspended inside a call.
+// 3 thread suspended inside a call, 4 thread suspended by break-on-error at a failing call.
 func c16State(kind int) util.ECALDebugger {
 	dbg := NewECALDebugger(scope.NewScope(scope.GlobalScope))
 	if kind == 0 {
@@ -27,7 +33,21 @@ func c16State(kind int) util.ECALDebugger {
 	if kind == 3 {
 		src = c16ProgCall
 	}
-	if kind >= 2 {
+	if zz.Param("VALUES", 0) == 1 && kind >= 2 {
+		v := c16Values[zz.Choice("value", len(c16Values))]
+		switch kind {
+		case 2:
+			src = "a := " + v + "\nb := 2\nc := 3"
+		case 3:
+			src = "func f(x) {\n  y := x\n  return y\n}\ng := " + v + "\nr := f(g)\nq := 2"
+		case 4: // suspended by break-on-error at a raise whose data is the value
+			src = "a := " + v + "\nraise(\"T\", \"d\", a)\nc := 3"
+		}
+	}
+	if kind == 4 && zz.Param("VALUES", 0) != 1 {
+		src = "a := 1\nraise(\"T\", \"d\", a)\nc := 3"
+	}
+	if kind >= 2 && kind != 4 {
 		_, err := dbg.HandleInput("break t:2")
 		zz.Assert(err == nil, "C16.setup-break")
 	}
@@ -53,7 +73,7 @@ func c16State(kind int) util.ECALDebugger {
 // arbitrary bytes) in every debugger state: no panic, the debugger lock is free afterwards and a following
 // status command answers.
 func VerifC16Total() {
-	kind := zz.Choice("state", 4)
+	kind := zz.Choice("state", 5)
 	if only := zz.Param("STATE", -1); only >= 0 {
 		zz.Assume(kind == only)
 	}
@@ -79,8 +99,12 @@ func VerifC16Total() {
 				line += " " + c16Args[ai]
 			}
 		}
-		dbg.HandleInput(line)
+		res, cerr := dbg.HandleInput(line)
 		zz.Reach("command-returned")
+		if cerr == nil {
+			_, jerr := json.Marshal(res)
+			zz.Assert(jerr == nil, "C16.result-is-json-encodable")
+		}
 		ed := dbg.(*ecalDebugger)
 		free := ed.lock.TryLock()
 		zz.Assert(free, "C16.debugger-lock-not-held-after-command")
